@@ -257,8 +257,8 @@ fn gen_step(ty: &Ty, dec: &Decoded, bytes: &[u8], t: &mut Tape, cfg: &HistCfg, s
     let assign = |t: &mut Tape, st: &mut Stats| -> Option<Step> {
         // replacement value for an unsized node (or a sized one through assign_in_place)
         let mut fuel = match t.below(8) {
-            0 | 1 => Fuel { elems: 200, max_len: 40 },
-            2 => Fuel { elems: 700, max_len: 280 },
+            0 | 1 => Fuel { elems: 200, max_len: 40, overlong: false },
+            2 => Fuel { elems: 700, max_len: 280, overlong: true },
             _ => Fuel::small(),
         };
         let nv2 = gen_value(nty, t, &mut fuel);
@@ -302,7 +302,11 @@ fn gen_step(ty: &Ty, dec: &Decoded, bytes: &[u8], t: &mut Tape, cfg: &HistCfg, s
         (Ty::FlatVec(et, _), Value::Vec(xs)) => {
             let cap = nd.cap.unwrap();
             let len = xs.len();
-            let k = if cfg.focus == Focus::Edge { [0, 0, 2, 2, 3, 3, 0, 2, 3, 12][t.below(10)] } else { t.below(14) };
+            let k = match cfg.focus {
+                Focus::Edge => [0, 0, 2, 2, 3, 3, 0, 2, 3, 12][t.below(10)],
+                Focus::Assign if t.bool() => 13,
+                _ => t.below(14),
+            };
             let step = |op: Op, expect: Expect, desc: String| Some(Step { path: path.clone(), op, expect, desc, allowed: whole.clone() });
             match k {
                 0 | 1 => {
@@ -398,7 +402,11 @@ fn gen_step(ty: &Ty, dec: &Decoded, bytes: &[u8], t: &mut Tape, cfg: &HistCfg, s
         (Ty::FlatString(_), Value::Str(s)) => {
             let cap = nd.cap.unwrap();
             let step = |op: Op, expect: Expect, desc: String| Some(Step { path: path.clone(), op, expect, desc, allowed: whole.clone() });
-            let k = if cfg.focus == Focus::Edge { [0, 1, 1, 0, 1, 5][t.below(6)] } else { t.below(7) };
+            let k = match cfg.focus {
+                Focus::Edge => [0, 1, 1, 0, 1, 5][t.below(6)],
+                Focus::Assign if t.bool() => 6,
+                _ => t.below(7),
+            };
             match k {
                 0 => {
                     let c = gen_char(t);
@@ -447,7 +455,7 @@ fn gen_step(ty: &Ty, dec: &Decoded, bytes: &[u8], t: &mut Tape, cfg: &HistCfg, s
                     let x = if default {
                         default_value(it)
                     } else {
-                        let mut f = if t.chance(1, 5) { Fuel { elems: 300, max_len: 260 } } else { fuel };
+                        let mut f = if t.chance(1, 5) { Fuel { elems: 300, max_len: 260, overlong: false } } else { fuel };
                         gen_value(it, t, &mut f)
                     };
                     // where would the new slot go?
@@ -571,7 +579,7 @@ pub fn run_history(sh: &dyn DynShape, tape: &[u8], cfg: &HistCfg, st: &mut Stats
     let mut t = Tape::new(tape);
     let nsteps = 1 + t.below(cfg.max_steps);
     let mut fuel = match cfg.focus {
-        Focus::Edge if t.chance(1, 3) => Fuel { elems: 600, max_len: 280 },
+        Focus::Edge if t.chance(1, 3) => Fuel { elems: 600, max_len: 280, overlong: false },
         _ if t.chance(1, 16) => Fuel::big(),
         _ => Fuel::small(),
     };
